@@ -532,7 +532,7 @@ pub fn run(sc: &SpawnScenario, sandbox: &Sandbox) -> SpawnResult {
 pub fn to_vlines(seed: u64, r: &SpawnResult) -> Vec<VLine> {
     r.violations
         .iter()
-        .map(|(c, d)| VLine { seed, op: 0, prop: if c.starts_with("c05-") { "C05".into() } else { "C16".into() }, code: c.clone(), detail: d.clone() })
+        .map(|(c, d)| VLine { sweep: None, seed, op: 0, prop: if c.starts_with("c05-") { "C05".into() } else { "C16".into() }, code: c.clone(), detail: d.clone() })
         .collect()
 }
 
